@@ -47,7 +47,8 @@ def run_case(case, backend="main"):
         if k not in classes:
             # even-numbered classes derive from the class below them: delivery and waiting go by the EXACT class
             base = cls_of(k - 1) if (k % 2 == 0 and k >= 2) else AbstractSignal
-            classes[k] = type("Sig%d" % k, (base,), {})
+            # ... and carry the SAME __name__ as that class (two distinct classes, one name)
+            classes[k] = type("Sig%d" % (k - 1 if (k % 2 == 0 and k >= 2) else k), (base,), {})
         return classes[k]
 
     srcs = {}
